@@ -5,7 +5,9 @@ import (
 	"math"
 	"math/big"
 	"net/netip"
+	"runtime"
 	"sort"
+	"sync/atomic"
 
 	"github.com/libp2p/go-libp2p/core/network"
 	"github.com/libp2p/go-libp2p/core/peer"
@@ -345,9 +347,19 @@ type limiter struct {
 	peers  []peer.ID
 	protos []protocol.ID
 	svcs   []string
+	// yields: how often a limit lookup gives way to other goroutines before answering. The
+	// manager consults the limiter when it creates a scope on first use; a lookup that takes
+	// its time stretches that moment for the concurrent property.
+	yields atomic.Int32
 }
 
-func (l *limiter) bl(name string) rcmgr.Limit { x := l.c.limitOf(name); return &x }
+func (l *limiter) bl(name string) rcmgr.Limit {
+	for i := l.yields.Load(); i > 0; i-- {
+		runtime.Gosched()
+	}
+	x := l.c.limitOf(name)
+	return &x
+}
 
 func (l *limiter) GetSystemLimits() rcmgr.Limit               { return l.bl(sSystem) }
 func (l *limiter) GetTransientLimits() rcmgr.Limit            { return l.bl(sTransient) }
